@@ -684,6 +684,11 @@ def _json_merged_roles(repo) -> List[str]:
                         r2 = role_of(x.args[0])
                         if r2:
                             out.append(r2)
+    if len(set(out)) < 4 and any(isinstance(n, ast.Call) and (dotted_name(n.func) or '').endswith('jsons.dumps') for n in ast.walk(mi.tree)):
+        # the dump goes through a local function / other plumbing: every `model.<role>.OutputParameterDict` the module mentions is dumped
+        for n in ast.walk(mi.tree):
+            if isinstance(n, ast.Attribute) and n.attr == 'OutputParameterDict' and role_of(n.value) is not None:
+                out.append(role_of(n.value))
     uniq = list(dict.fromkeys(out))
     return [r for r in _ROLE_ORDER if r in uniq] + sorted(r for r in uniq if r not in _ROLE_ORDER)
 
